@@ -37,20 +37,20 @@ func thBodies(p thProg, ev *[]tt.Op) []func() {
 	vtime.Enable(false)
 	// every jump of the clock is an event of its own, logged when it happens: a timer callback
 	// may hand the baton to other threads in the middle of an Advance
-	vtime.OnJump = func(d time.Duration) { *ev = append(*ev, op("adv", int(d/time.Millisecond))) }
+	vtime.OnJump = func(d time.Duration) { logEv(ev, op("adv", int(d/time.Millisecond))) }
 	th := gogu.NewThrottle(time.Duration(p.Per)*time.Millisecond, p.Trailing == 1)
 	thRelease = func() { th.Cancel() }
-	*ev = append(*ev, op("new", p.Per, p.Trailing))
+	logEv(ev, op("new", p.Per, p.Trailing))
 	bodies := []func(){func() {
 		for _, a := range p.Script {
 			switch {
 			case a == "call":
 				th.Call()
-				*ev = append(*ev, op("call"))
+				logEv(ev, op("call"))
 				vtime.Advance(0) // a zero-delay timer fires at once
 			case a == "cancel":
 				th.Cancel()
-				*ev = append(*ev, op("cancel"))
+				logEv(ev, op("cancel"))
 			default:
 				var d int
 				fmt.Sscanf(a, "adv%d", &d)
@@ -64,9 +64,9 @@ func thBodies(p thProg, ev *[]tt.Op) []func() {
 		bodies = append(bodies, func() {
 			for i := 0; i < p.NN; i++ {
 				vsync.Point()
-				*ev = append(*ev, op("inv", id))
+				logEv(ev, op("inv", id))
 				r := th.Next()
-				*ev = append(*ev, op("ret", id, b2i(r)))
+				logEv(ev, op("ret", id, b2i(r)))
 			}
 		})
 	}
